@@ -25,7 +25,7 @@ RULE = ('cases = (catalogue entry, D, P, memory layout), (binary op, self-aliase
         'operation in {record, function, pullback, drivers, two-dependent sweep}); non-trivial = all (every case has a '
         'non-constant argument whose bytes are compared); distinct = distinct tuples')
 ASSUMPTIONS = ['bit-wise comparison of argument bytes; aliased forms compared bit-wise with the copy-based form']
-DPS = [(1, 1), (3, 2), (4, 1)]
+DPS = [(1, 1), (3, 2), (4, 1), (8, 2)]      # D = 8: kernels that scale coefficient k by k and back are not bit-exact for k = 3, 5, 6, 7
 LAYOUTS = ['C', 'F', 'strided']
 CHUNK_E = 12
 CHUNK_P = 40
@@ -453,6 +453,76 @@ def run_outalias(u, out):
                     out['fails'].append({'sig': 'C14|dot out=|destination %s|returned value is not the product' % dname, 'case': case, 'detail': {}})
 
 
+def run_forward_drivers(u, out):
+    """the forward-mode drivers: seeding does not modify the point / direction arrays, extraction does not modify the
+    propagated polynomial (so a second extraction gives the same answer)"""
+    def f(x):
+        return x[0] * x[1] * x[2] + algopy.sin(x[0]) * x[2] - 2.0 * x[1] * x[1]
+    x0 = np.array([0.5, -1.25, 0.75])
+    v0 = np.array([1.0, -0.5, 2.0])
+    N = 3
+    drivers = [('jacobian', lambda x, v: UTPM.init_jacobian(x), lambda y: UTPM.extract_jacobian(y)),
+               ('jac_vec', lambda x, v: UTPM.init_jac_vec(x, v), lambda y: UTPM.extract_jac_vec(y)),
+               ('hessian', lambda x, v: UTPM.init_hessian(x), lambda y: UTPM.extract_hessian(N, y)),
+               ('hess_vec', lambda x, v: UTPM.init_hess_vec(x, v), lambda y: UTPM.extract_hess_vec(N, y)),
+               ('tensor2', lambda x, v: UTPM.init_tensor(2, x), lambda y: UTPM.extract_tensor(N, y)),
+               ('tensor3', lambda x, v: UTPM.init_tensor(3, x), lambda y: UTPM.extract_tensor(N, y, as_full_matrix=False))]
+    for nm, init, ext in drivers:
+        x, v = x0.copy(), v0.copy()
+        out['evals'] += 1
+        out['keys'].append('fwd-driver|' + nm)
+        case = {'kind': 'fwddrv', 'driver': nm}
+        try:
+            X = init(x, v)
+            if not (np.array_equal(x, x0) and np.array_equal(v, v0)):
+                out['fails'].append({'sig': 'C14|forward driver %s|seeding modified its arguments' % nm, 'case': case, 'detail': {}})
+                continue
+            Xs = X.data.copy()
+            y = f(X)
+            if not np.array_equal(X.data, Xs):
+                out['fails'].append({'sig': 'C14|forward driver %s|evaluation modified the seeded polynomial' % nm, 'case': case, 'detail': {}})
+                continue
+            ys = y.data.copy()
+            r1 = np.array(ext(y), dtype=float, copy=True)
+            if not np.array_equal(y.data, ys):
+                out['fails'].append({'sig': 'C14|forward driver %s|extraction modified the propagated polynomial' % nm, 'case': case, 'detail': {}})
+                continue
+            r2 = np.array(ext(y), dtype=float, copy=True)
+            if not np.array_equal(r1, r2):
+                out['fails'].append({'sig': 'C14|forward driver %s|second extraction differs' % nm, 'case': case, 'detail': {}})
+        except Exception as ex:
+            out['fails'].append({'sig': 'C14|forward driver %s|raises' % nm, 'case': case, 'detail': {'error': str(ex)[:160]}})
+
+
+def run_nondyadic(u, out):
+    """element-wise functions at D = 8 on NON-dyadic coefficients (0.1, 1/3, 0.7, ...): a kernel that scales coefficient k by k and
+    back, or adds and subtracts a constant, returns the argument 1 ulp off - byte comparison of the argument"""
+    vals = np.array([0.1, 1.0 / 3.0, 0.7, 0.3, 0.123456789, 0.9, 0.45, 0.05])
+    for e in CAT.ENTRIES:
+        if 'elementwise' not in e.tags or len(e.args) != 1 or e.args[0][0] != 'u':
+            continue
+        shape = e.args[0][1]
+        kind = e.args[0][2]
+        n = int(np.prod(shape, dtype=int)) if shape else 1
+        for (D, P) in [(8, 1), (6, 2)]:
+            if D > e.maxD:
+                continue
+            data = np.resize(vals, D * P * n).reshape((D, P) + shape).copy()
+            data[1:] *= np.where(np.arange(n).reshape(shape) % 2 == 0, 1.0, -1.0) if n > 1 else 1.0
+            base = CAT.make_args(e, 1, P, u['seed'])[0].data[0]
+            data[0] = base + 0.013
+            x = UTPM(data.copy())
+            out['evals'] += 1
+            out['keys'].append('nondyadic|%s|%d|%d' % (e.name, D, P))
+            try:
+                e.fn(x)
+            except Exception:
+                continue
+            if not np.array_equal(x.data, data, equal_nan=True):
+                out['fails'].append({'sig': 'C14|%s|argument modified (non-dyadic coefficients)' % e.name, 'case': {'kind': 'nondyadic', 'name': e.name, 'D': D, 'P': P},
+                                     'detail': {'max_change': float(np.nanmax(np.abs(x.data - data)))}})
+
+
 def run_symmetric_consumers(u, out):
     """functions that expect a symmetric argument (eigh, eigh1, cholesky, svd via eigh) read it as they please, but must not write
     to it: higher coefficients symmetric only up to rounding, grossly non-symmetric, or stored in one triangle"""
@@ -498,6 +568,8 @@ def run_unit(u):
     elif u['kind'] == 'outalias':
         run_outalias(u, out)
         run_symmetric_consumers(u, out)
+        run_forward_drivers(u, out)
+        run_nondyadic(u, out)
     elif u['kind'] == 'inplace':
         o2 = {'evals': 0, 'nontrivial': 0, 'fails': [], 'samples': [], 'counters': {}}
         C02.run_alias({'tier': u['tier']}, o2)
@@ -522,6 +594,12 @@ def replay(case):
         return [f for f in out['fails'] if f['case']['op'] == case['op'] and f['case']['D'] == case['D'] and f['case']['P'] == case['P']]
     if case['kind'] == 'inplace':
         return C02.replay(dict(case, kind='alias'))
+    if case['kind'] == 'nondyadic':
+        run_nondyadic({'seed': 0}, out)
+        return [f for f in out['fails'] if all(f['case'].get(k) == case.get(k) for k in ('name', 'D', 'P'))]
+    if case['kind'] == 'fwddrv':
+        run_forward_drivers({}, out)
+        return [f for f in out['fails'] if f['case'].get('driver') == case.get('driver')]
     if case['kind'] == 'symcons':
         run_symmetric_consumers({}, out)
         return [f for f in out['fails'] if all(f['case'].get(k) == case.get(k) for k in ('fn', 'variant', 'N', 'D', 'P'))]
